@@ -5,6 +5,7 @@ CONSTANTS
  HLEN = 4
  MAXSTEPS = 2
  PACE = 0
+ SHAPESONLY = FALSE
 INVARIANTS QueueWellFormed SceneIsWhatWasAskedFor
 VIEW View
 CHECK_DEADLOCK FALSE
